@@ -252,6 +252,28 @@ def elim_case_kaykobad(rng) -> Dict[str, Any]:
             "elim": elim, "refine_hint": refine}
 
 
+def elim_case_kaykobad_sum(rng) -> Dict[str, Any]:
+    """Three or four eliminated variables in one term; every context row passes the pairwise tests of the
+    context-reduction tactic, but the off-diagonal entries on one column only add up to more than the term's own
+    coefficient when all rows are taken together (the accumulated column test)."""
+    ne = rng.choice([3, 3, 4])
+    elim = ["b", "c", "d", "e"][:ne]
+    refine = rng.random() < 0.6
+    sgn = 1.0 if refine else -1.0
+    tsign = {v: rng.choice([1.0, -1.0]) for v in elim}
+    term = T({"a": float(rng.choice([1, -1, 2])), **{v: tsign[v] for v in elim}}, float(rng.randint(2, 12)))
+    col = rng.choice(elim)
+    rows = []
+    for v in elim:
+        row = {v: sgn * tsign[v]}
+        if v != col:
+            row[col] = sgn * tsign[col] * rng.choice([0.4, 0.5, 0.625, 0.75])
+        rows.append(T(row, float(rng.randint(1, 3))))
+    order = list(rows)
+    rng.shuffle(order) if rng.random() < 0.5 else None
+    return {"terms": [term], "ctx": order, "elim": elim, "refine_hint": refine}
+
+
 def elim_case_coincide(rng) -> Dict[str, Any]:
     """A chain whose last link bounds the eliminated variable from the useless side, with the term that a
     wrong-direction substitution would produce already present in the context (as a bound on the kept variable)."""
@@ -286,6 +308,7 @@ ELIM_FAMILIES = [
     ("degenerate", elim_case_degenerate, 2),
     ("kaykobad", elim_case_kaykobad, 3),
     ("coincide", elim_case_coincide, 1),
+    ("kaykobad_sum", elim_case_kaykobad_sum, 1),
 ]
 
 
